@@ -1,0 +1,14 @@
+//go:build verif
+
+package portforwarding
+
+import (
+	"io"
+	"net"
+)
+
+// VerifToBytes is toBytes (verification harness only).
+func VerifToBytes(f net.Addr, fwdType int) []byte { return toBytes(f, fwdType) }
+
+// VerifReadPacket is readPacket (verification harness only).
+func VerifReadPacket(r io.Reader) (net.Addr, byte, error) { return readPacket(r) }
